@@ -5,6 +5,7 @@ from ..events import Summaries, calls_in, call_arg_terms, fi_of_term, bind_call,
 from ..flow import get_flow, show, strip_sites, subterms
 from ..model import AnalysisError, first_line, src_of
 from . import loops
+from ..guards import GuardGraph, normal_succ
 
 
 def truth_rule(run, model, rule):
@@ -80,6 +81,13 @@ def kind_uniform(run, model, rule):
         run.check(bad is None, rule, fi.qual, "no branch of the wrapper depends on the kind of the decorated callable", "a branch of the wrapper depends on the kind of the decorated callable: %s" % (first_line(bad.stmt) if bad else ""), fi.loc(bad) if bad else fi.loc(), None, first_line(bad.stmt) if bad else None)
 
 
+def _only_when_empty(flow, node, base):
+    """``node`` is reachable only with the list ``base`` known to be empty (falsy)"""
+    gg = GuardGraph(flow)
+    atoms = [a for (nid, k), (kn, _atoms) in gg.edge_facts.items() for a, pol in kn if strip_sites(a) == strip_sites(base)]
+    return any(gg.necessary([flow.cfg.entry], [node.id], (a, False)) for a in atoms)
+
+
 def append_rules(run, model, rule, which=("pre", "post", "snap")):
     """add_*_to_checker add the contract at the END of the list they read from the checker, unconditionally."""
     specs = {
@@ -107,6 +115,10 @@ def append_rules(run, model, rule, which=("pre", "post", "snap")):
                     if ("param", item_p) in args or any(("param", item_p) in list(subterms(a)) for a in args):
                         if t[2] == "append" and recv == want_recv and args == [("param", item_p)]:
                             appends.append(n)
+                        elif depth == 1 and t[2] == "append" and recv == base and [strip_sites(a_) for a_ in args] == [("display", "list", (("param", item_p),))] and _only_when_empty(flow, n, base):
+                            # the first group created together with its first member: `groups.append([contract])`
+                            # on the path where the list of groups is empty is `groups.append([]); groups[0].append(contract)`
+                            appends.append(n)
                         else:
                             others.append((n, t[2], recv))
         for n in flow.cfg.nodes:
@@ -118,6 +130,16 @@ def append_rules(run, model, rule, which=("pre", "post", "snap")):
         if others:
             n, how, recv = others[0]
             run.violation(rule, fi.qual, "the new contract is added by `%s` (%s), not appended at the end of the checker's own list: stacking order / ownership changes" % (first_line(n.stmt), how), fi.loc(n), None, first_line(n.stmt))
+            continue
+        if len(appends) == 2 and depth == 1:
+            # one append per arm (empty list of groups / first group present): every returning path takes exactly one
+            gg_ = GuardGraph(flow)
+            ids_ = set(x.id for x in appends)
+            without = gg_.reach([flow.cfg.entry], lambda n_, k_, t_: t_.id in ids_, None, False)
+            crossing = any((gg_.reach(normal_succ(x), None, None, False) & (ids_ - {x.id})) for x in appends)
+            a = appends[0]
+            ok2 = flow.cfg.exit_return.id not in without and not crossing
+            run.check(ok2, rule, fi.qual, "appends the new contract at the end of the checker's list on every returning path (one append per arm)", "some returning path does not append the contract exactly once", fi.loc(a), None, first_line(a.stmt))
             continue
         if len(appends) != 1:
             run.violation(rule, fi.qual, "expected exactly one `append(%s)` onto `%s` of the given checker, found %d" % (item_p, show(want_recv), len(appends)), fi.loc())
